@@ -144,3 +144,34 @@ def _pair_in_table(v, op, pairs):
     if v["kind"] != "missed" or d.get("op") != op:
         return False
     return [d.get("site_op"), d.get("site_next")] in pairs
+
+
+@predicate("member_call_statement_with_incdec_and_comma")
+def _member_call_incdec(v):
+    """C01: the offending line is a call *statement* through a struct member, `p->f(--x, y);` / `s.f(x++, y);`,
+    whose argument list holds ++ or -- and a comma (IsAssignation takes the ++/-- for an assignment operator and
+    ends the statement at the first comma)"""
+    d = v.get("detail") or {}
+    if v["kind"] not in ("not_analysed", "false_positive", "member_call_statement_cut_at_comma"):
+        return False
+    segs = [tuple(x) for x in d.get("segs") or []]
+    return f60_shape(segs)
+
+
+def f60_shape(segs):
+    k = 0
+    while k < len(segs) and segs[k][1].startswith("ws"):
+        k += 1
+    if len(segs) < k + 5:
+        return False
+    if not (segs[k][1] == "id:var" and segs[k + 1][1] == "op:member" and segs[k + 2][1] == "id:member"):
+        return False
+    j = k + 3
+    while j + 1 < len(segs) and segs[j][1] == "op:member" and segs[j + 1][1] == "id:member":
+        j += 2
+    if j >= len(segs) or segs[j] != ("(", "punct"):
+        return False
+    rest = segs[j:]
+    has_incdec = any(c == "op:incdec" for _, c in rest)
+    has_comma = any(c == "op:comma" for _, c in rest)
+    return has_incdec and has_comma and segs[-1] == (";", "punct")
